@@ -365,7 +365,8 @@ def r5(R, repo):
     tp_, sp_ = astu.params(f.node)[0], astu.params(f.node)[1]
     size_one_sided = [x for n_ in c.nodes if n_.kind == 'if' and any(c.edge_guarded(r_, n_, 'T') or c.edge_guarded(r_, n_, 'F') for r_ in named) for x in ast.walk(n_.ast)
                       if isinstance(x, ast.Compare) and len(x.ops) == 1 and isinstance(x.ops[0], (ast.LtE, ast.GtE, ast.Lt, ast.Gt))
-                      and {astu.src(x.left), astu.src(x.comparators[0])} == {'len(%s)' % tp_, 'len(%s)' % sp_}]
+                      and any(({'len(%s)' % a_} & {astu.src(e_) for e_ in evid.expand(f, x.left) if isinstance(e_, ast.AST)}) and ({'len(%s)' % b_} & {astu.src(e_) for e_ in evid.expand(f, x.comparators[0]) if isinstance(e_, ast.AST)})
+                              for a_, b_ in ((tp_, sp_), (sp_, tp_)))]
     if size_one_sided:
       R.fail(key_of(f, 'mismatch raises with the path before restoring children'), (f, size_one_sided[0]), '%s rejects a size mismatch in one direction only (`%s`): a saved state that is shorter (or longer) than the target is restored silently, '
              'leaving part of the target at its template values or dropping saved entries' % (qual, astu.short(size_one_sided[0])))
